@@ -84,6 +84,14 @@ def wild_name(rng):
 # ---------------------------------------------------------------------------------------------
 # rendering
 # ---------------------------------------------------------------------------------------------
+RAW_KEYWORDS = {"type", "ref", "match", "move", "loop", "fn", "use", "mod", "in", "as", "box", "dyn", "impl", "let", "pub", "mut"}
+
+
+def rs_ident(name):
+    """an argument may be named like a keyword when written as a raw identifier; its wire name is the bare word"""
+    return "r#" + name if name in RAW_KEYWORDS else name
+
+
 def render_arg(a):
     s = ""
     for at in a.get("attrs", []):
@@ -94,7 +102,7 @@ def render_arg(a):
         s += "#[sv::data(%s)] " % ", ".join(fl) if fl else "#[sv::data] "
     if a.get("payload_raw"):
         s += "#[sv::payload(raw)] "
-    return "%s%s: %s" % (s, a["name"], ty_text(a["ty"], " "))
+    return "%s%s: %s" % (s, rs_ident(a["name"]), ty_text(a["ty"], " "))
 
 
 def render_msg_attr(m):
@@ -102,7 +110,11 @@ def render_msg_attr(m):
     if m.get("resp"):
         parts.append("resp=%s" % m["resp"])
     if m.get("handlers"):
-        parts.append("handlers=[%s]" % ", ".join(m["handlers"]))
+        if m.get("handlers_split") and len(m["handlers"]) > 1:
+            # the argument may be repeated: `handlers=[a], handlers=[b]` names the same handlers as `handlers=[a, b]`
+            parts += ["handlers=[%s]" % h for h in m["handlers"]]
+        else:
+            parts.append("handlers=[%s]" % ", ".join(m["handlers"]))
     if m["kind"] == "reply" and m.get("reply_on_explicit", True) and m.get("reply_on"):
         parts.append("reply_on=%s" % m["reply_on"])
     return "#[sv::msg(%s)]" % ", ".join(parts)
